@@ -775,10 +775,13 @@ theorem wf_asElem_step (W : World) (f : Nat) (ih : WfAt W f) :
   · exact ih.for_ _ _ _ _ _ _ hctx ht
   · split
     · simp only [TplNode] at ht
-      split
-      · exact ih.tmpl _ _ _ _ hctx ht.2.1 ht.2.2
-      · exact ih.list _ _ _ hctx ht.2.2
-    · exact ih.plain _ _ _ _ _ hctx ht
+      exact ih.slot _ _ _ _ hctx ht.2.2
+    · split
+      · simp only [TplNode] at ht
+        split
+        · exact ih.tmpl _ _ _ _ hctx ht.2.1 ht.2.2
+        · exact ih.list _ _ _ hctx ht.2.2
+      · exact ih.plain _ _ _ _ _ hctx ht
 
 
 theorem tplNode_loopInstance {tag : Str} {attrs : List Attr} {kids : List Node} (h : TplNode (.elem tag attrs kids)) :
@@ -961,25 +964,25 @@ theorem wf_list_step (W : World) (f : Nat) (ih : WfAt W f) :
               intro rs st1 hrs
               exact outOK_prepend (ih.vfor _ _ _ _ _ _ hctx ht hns.2 rs st1 hrs) (hrest _ _)
             · split
-              · apply outOK_bindR
-                intro res st1 hres
-                exact outOK_prepend (ih.slot _ _ _ _ hctx ht'.2.2 res st1 hres) (hrest0 _)
-              · split
-                · apply outOK_bindE
-                  intro ps _
-                  split
-                  · exact hrest _ _
-                  · apply outOK_bindR
-                    intro res st1 hres
-                    exact outOK_prepend (ih.asElem _ _ _ _ _ hctx ht res st1 hres) (hrest _ _)
-                  · split
-                    · rename_i t a k hget
-                      split
-                      · exact hrest _ _
-                      · apply outOK_bindR
-                        intro res st1 hres
-                        exact outOK_prepend (ih.asElem _ _ _ _ _ hctx (tplNode_getElem hns.2 hget) res st1 hres) (hrest _ _)
+              · apply outOK_bindE
+                intro ps _
+                split
+                · exact hrest _ _
+                · apply outOK_bindR
+                  intro res st1 hres
+                  exact outOK_prepend (ih.asElem _ _ _ _ _ hctx ht res st1 hres) (hrest _ _)
+                · split
+                  · rename_i t a k hget
+                    split
                     · exact hrest _ _
+                    · apply outOK_bindR
+                      intro res st1 hres
+                      exact outOK_prepend (ih.asElem _ _ _ _ _ hctx (tplNode_getElem hns.2 hget) res st1 hres) (hrest _ _)
+                  · exact hrest _ _
+              · split
+                · apply outOK_bindR
+                  intro res st1 hres
+                  exact outOK_prepend (ih.slot _ _ _ _ hctx ht'.2.2 res st1 hres) (hrest0 _)
                 · split
                   · rename_i htag
                     have htag' : tag = sTemplate := by
